@@ -1,0 +1,35 @@
+//go:build verif
+
+package lnd
+
+import (
+	"context"
+
+	"github.com/btcsuite/btcd/chaincfg"
+	"github.com/lightningnetwork/lnd/lnrpc"
+	"github.com/lightningnetwork/lnd/lnrpc/chainrpc"
+)
+
+// VerifNewTxWatcher builds a TxWatcher over injected gRPC clients (the verification harness supplies
+// scripted ones); NewTxWatcher needs a live connection.
+func VerifNewTxWatcher(ctx context.Context, ln lnrpc.LightningClient, cn chainrpc.ChainNotifierClient, network *chaincfg.Params, targetConfirmation, targetCsv uint32) *TxWatcher {
+	ctx, cancel := context.WithCancel(ctx)
+	return &TxWatcher{
+		ctx:                  ctx,
+		cancel:               cancel,
+		lnrpcClient:          ln,
+		chainrpcClient:       cn,
+		network:              network,
+		targetConfs:          targetConfirmation,
+		targetCsv:            targetCsv,
+		confirmationWatchers: make(map[string]bool),
+		waitForCsvWatchers:   make(map[string]bool),
+	}
+}
+
+// VerifWatchers reports the bookkeeping entries for a swap: (confirmation watcher, csv watcher).
+func (t *TxWatcher) VerifWatchers(swapId string) (bool, bool) {
+	t.Lock()
+	defer t.Unlock()
+	return t.confirmationWatchers[swapId], t.waitForCsvWatchers[swapId]
+}
